@@ -102,7 +102,21 @@ def deliberate_projects():
     p2 = {"controllers": [{"name": "Ctl0", "prefix": "/c"}],
           "routes": [mk("Void", [A("Method", "POST"), A("Route", "/void")], [], []),
                      mk("PathA", [A("Method", "GET"), A("Route", "/pa"), A("Path", "a")], [], ["RError"])]}
-    return [p1, p2]
+    # the alias diagnostic comes from two passes of the link validator: de-duplication must work across other
+    # diagnostics; verbs in other letter cases are invalid values, HEAD is an unsupported feature
+    nonstr = lambda v, n: {"k": "Path", "v": v, "alias": {"n": n}}
+    p3 = {"controllers": [{"name": "Ctl0", "prefix": "/c"}],
+          "routes": [mk("TwoNonStr", [A("Method", "GET"), A("Route", "/tn/{id}/{post}"), nonstr("id", 5), nonstr("post", 6)],
+                        [{"name": "id", "base": "TPrim", "shape": "SPlain"}, {"name": "post", "base": "TPrim", "shape": "SPlain"}],
+                        ["RError"]),
+                     mk("ThreeNonStr", [A("Method", "GET"), A("Route", "/t3/{pa}/{pb}/{pc}"), nonstr("pa", 1), nonstr("pb", 2), nonstr("pc", 3)],
+                        [{"name": n_, "base": "TPrim", "shape": "SPlain"} for n_ in ("pa", "pb", "pc")], ["RError"]),
+                     mk("NonStrMissing", [A("Method", "GET"), A("Route", "/nm/{id}"), nonstr("idd", 5)],
+                        [{"name": "id", "base": "TPrim", "shape": "SPlain"}], ["RError"]),
+                     mk("VerbLower", [A("Method", "get"), A("Route", "/vl")], [], ["RError"]),
+                     mk("VerbMixed", [A("Method", "Post"), A("Route", "/vm")], [], ["RError"]),
+                     mk("VerbHead", [A("Method", "HEAD"), A("Route", "/vh")], [], ["RError"])]}
+    return [p1, p2, p3]
 
 
 # ------------------------------------------------------------------ running
@@ -233,10 +247,15 @@ def coq_odiag(rec):
     d = rec["d"]
     val = "None" if rec["value"] is None else "(Some (%s, %s))" % (coq_bytes(rec["value"][0]), coq_bytes(rec["value"][1]))
     msg = (d["file"] + "|" + d["message"]).encode()
-    return "(mkOd %d %d %s %s %s %d %d %d %s %s)" % (
+    verb = None
+    if d["code"] in ("annotation-value-invalid", "unsupported-feature"):
+        m = re.match(r"(?:Invalid HTTP verb|HTTP verb) '([^']*)'", d["message"])
+        verb = m.group(1) if m else None
+    return "(mkOd %d %d %s %s %s %d %d %d %s %s %s)" % (
         c10.CODE_N.get(d["code"], 99), d["severity"],
         coq_rng((d["start_line"], d["start_col"], d["end_line"], d["end_col"])), coq_bytes(msg), coq_bool(rec["file_ok"]),
-        rec["nlines"], rec["len_sl"], rec["len_el"], coq_rng(rec["region"]), val)
+        rec["nlines"], rec["len_sl"], rec["len_el"], coq_rng(rec["region"]), val,
+        "None" if verb is None else "(Some %s)" % coq_bytes(verb))
 
 
 SEVS = {1: "EError", 2: "EWarning", 3: "EInfo", 4: "EHint"}
@@ -259,9 +278,9 @@ Definition mkG a b c d := {| g_sl := a; g_sc := b; g_el := c; g_ec := d |}.
 Definition mkC l c t := {| c_line := l; c_col := c; c_text := t |}.
 Definition mkLy a p r := {| ly_attrs := a; ly_params := p; ly_rets := r |}.
 Definition mkRd c sv f l co m := {| rd_code := c; rd_sev := sv; rd_file := f; rd_line := l; rd_col := co; rd_msg := m |}.
-Definition mkOd c sv g m ok n l1 l2 reg v :=
+Definition mkOd c sv g m ok n l1 l2 reg v vb :=
   {| od_code := c; od_sev := sv; od_range := g; od_msg := m; od_file_ok := ok; od_nlines := n; od_len_sl := l1;
-     od_len_el := l2; od_region := reg; od_value := v |}.
+     od_len_el := l2; od_region := reg; od_value := v; od_verb := vb |}.
 """
 
 
@@ -433,7 +452,17 @@ def main():
             if "repeated-route-conflict" in cls:
                 classes_seen.setdefault("repeated-route-conflict", []).append((k, "list"))
             else:
-                fails.append((k, None, "duplicate diagnostic in the list"))
+                # name the receiver and the diagnostic that occurs twice
+                dup = None
+                seen_d = {}
+                for rec in rs["od"]:
+                    d = rec["d"]
+                    key_ = (d["code"], d["severity"], d["file"], d["start_line"], d["start_col"], d["end_line"], d["end_col"], d["message"])
+                    if key_ in seen_d:
+                        dup = rec
+                        break
+                    seen_d[key_] = rec
+                fails.append((k, dup, "duplicate diagnostic in the list"))
         if not text_ok:
             hit = [c for c in ("entity-per-error-diagnostic", "children-printed-under-parent") if c in cls]
             for c in hit:
